@@ -203,6 +203,115 @@ pub fn gen_case(preset: Preset, seed: u64, index: u64) -> Option<HistoryCase> {
     None
 }
 
+/// data-oriented documents that cross depth / width / count thresholds
+pub fn threshold_programs() -> Vec<HistoryCase> {
+    use gen::Item;
+    let mut out = Vec::new();
+    let mut n = 0usize;
+    let mut val = || {
+        n += 1;
+        format!("tv{}", n)
+    };
+    let mut text_leaf = |name: &str, val: &mut dyn FnMut() -> String| {
+        let mut e = Elem::new(name);
+        e.items.push(Item::Text(val()));
+        e
+    };
+    // deep chains: every level is a struct (it carries an attribute), text at the bottom
+    for (label, depth, names) in [
+        ("same-name", 9usize, vec!["s"]),
+        ("same-name", 12, vec!["s"]),
+        ("alternating", 10, vec!["ul", "li"]),
+        ("alternating", 13, vec!["section", "item"]),
+        ("three-names", 11, vec!["a", "b", "c"]),
+    ] {
+        let mut cur = text_leaf("t", &mut val);
+        for d in (0..depth).rev() {
+            let mut e = Elem::new(names[d % names.len()]);
+            e.attrs.push(("id".into(), val()));
+            e.items.push(Item::Elem(cur));
+            cur = e;
+        }
+        out.push(HistoryCase::plain(&format!("threshold-program:deep-{}-{}", label, depth), vec![Doc::plain(cur)]));
+    }
+    // two deep branches that differ only near the top
+    {
+        let mut branch = |top: &str, val: &mut dyn FnMut() -> String| {
+            let mut cur = text_leaf("t", val);
+            for _ in 0..9 {
+                let mut e = Elem::new("s");
+                e.attrs.push(("id".into(), val()));
+                e.items.push(Item::Elem(cur));
+                cur = e;
+            }
+            let mut t = Elem::new(top);
+            t.items.push(Item::Elem(cur));
+            t
+        };
+        let mut r = Elem::new("r");
+        let l = branch("left", &mut val);
+        let rr = branch("right", &mut val);
+        r.items.push(Item::Elem(l));
+        r.items.push(Item::Elem(rr));
+        out.push(HistoryCase::plain("threshold-program:two-deep-branches", vec![Doc::plain(r)]));
+    }
+    // wide: M distinct text children, a late one repeats (adjacent) in the same / a later document
+    for m in [64usize, 65, 66, 70, 130] {
+        let mut a = Elem::new("wide");
+        for i in 0..m {
+            let l = text_leaf(&format!("c{}", i), &mut val);
+            a.items.push(Item::Elem(l));
+        }
+        let mut b = a.clone();
+        let l = text_leaf(&format!("c{}", m - 1), &mut val);
+        b.items.push(Item::Elem(l));
+        out.push(HistoryCase::plain(&format!("threshold-program:wide-{}-late-repeat", m), vec![Doc::plain(b.clone())]));
+        out.push(HistoryCase::plain(&format!("threshold-program:wide-{}-late-repeat-later", m), vec![Doc::plain(a), Doc::plain(b)]));
+    }
+    // counts: 256 / 257 same-named siblings after one; a parent occurring 256 times
+    for k in [255usize, 256, 257] {
+        let mut small = Elem::new("r");
+        let l = text_leaf("item", &mut val);
+        small.items.push(Item::Elem(l));
+        let mut big = Elem::new("r");
+        for _ in 0..k {
+            let l = text_leaf("item", &mut val);
+            big.items.push(Item::Elem(l));
+        }
+        out.push(HistoryCase::plain(&format!("threshold-program:siblings-{}", k), vec![Doc::plain(small), Doc::plain(big)]));
+        let mut r = Elem::new("r");
+        for _ in 0..k {
+            let mut p = Elem::new("p");
+            p.attrs.push(("id".into(), val()));
+            let l = text_leaf("c", &mut val);
+            p.items.push(Item::Elem(l));
+            r.items.push(Item::Elem(p));
+        }
+        let mut again = Elem::new("r");
+        let mut p = Elem::new("p");
+        p.attrs.push(("id".into(), val()));
+        let l = text_leaf("c", &mut val);
+        p.items.push(Item::Elem(l));
+        again.items.push(Item::Elem(p));
+        out.push(HistoryCase::plain(&format!("threshold-program:occurrences-{}", k), vec![Doc::plain(r), Doc::plain(again)]));
+    }
+    // long values with a multi-byte character straddling a power-of-two offset
+    for b in [64usize, 256, 1024] {
+        let long = format!("{}é{}", "x".repeat(b - 1), val());
+        let mut r = Elem::new("r");
+        r.attrs.push(("k".into(), long.clone()));
+        let mut t = Elem::new("t");
+        t.items.push(Item::Text(long.clone()));
+        let mut u = Elem::new("u");
+        u.attrs.push(("a".into(), val()));
+        u.items.push(Item::CData(long));
+        r.items.push(Item::Elem(t));
+        r.items.push(Item::Elem(u));
+        out.push(HistoryCase::plain(&format!("threshold-program:long-values-{}", b), vec![Doc::plain(r)]));
+    }
+    out
+}
+
 // ---------------------------------------------------------------------------------------
 // writing the crate
 // ---------------------------------------------------------------------------------------
@@ -509,10 +618,21 @@ pub fn run(preset: Preset, thorough: bool, seed: u64, findings: &[Finding], only
             rep.inconclusive(&format!("witness {} cannot be read", f.witness));
         }
     }
+    let only_case_absent = only_case.is_none();
     if let Some(hc) = only_case {
         let id = cases.len();
         if let Some(pc) = make_case(preset, id, hc, None, &mut rep) {
             cases.push(pc);
+        }
+    }
+    // deterministic threshold programs: depth, width and counts beyond what the random profile reaches
+    if only_case_absent {
+        for hc in threshold_programs() {
+            let id = cases.len();
+            if let Some(pc) = make_case(preset, id, hc, None, &mut rep) {
+                cases.push(pc);
+                rep.count("threshold_programs");
+            }
         }
     }
     let mut index = 0u64;
